@@ -109,6 +109,59 @@ def call_fp_rules(body):
     return end, blk, sc
 
 
+DCE_CODES = ('CALL', 'ALLOCA', 'BSTART', 'VA_START', 'VA_ARG')
+
+
+def ssa_never_dead(body):
+    """which side-effecting insns with an output operand ssa_dead_insn_p (SSA dead-code elimination) refuses to delete:
+    the codes of the top-level `||` chain of its first `if (...) return FALSE;`; None when the shape is unknown"""
+    if not body:
+        return None
+    m = re.search(r'if \(((?:[^;{}])*?)\)\s*return (?:FALSE|0);', body, re.S)
+    if not m or 'insn->code' not in m.group(1):
+        return None
+    cond = re.sub(r'\s+', ' ', m.group(1))
+    # split on top-level ||
+    terms, depth, cur = [], 0, ''
+    i = 0
+    while i < len(cond):
+        ch = cond[i]
+        depth += {'(': 1, ')': -1}.get(ch, 0)
+        if depth == 0 and cond.startswith('||', i):
+            terms.append(cur.strip())
+            cur = ''
+            i += 2
+            continue
+        cur += ch
+        i += 1
+    terms.append(cur.strip())
+    kept = set()
+    for t in terms:
+        if t == 'MIR_call_code_p (insn->code)':
+            kept.add('CALL')
+            continue
+        mm = re.fullmatch(r'insn->code == MIR_(\w+)', t)
+        if mm:
+            kept.add(mm.group(1))
+        elif '&&' in t and 'HARD_REG' in t:
+            continue   # insns setting the frame / stack pointer
+        else:
+            return None
+    return kept
+
+
+def post_ra_never_dead(src):
+    """the same for the dead-code elimination after register allocation: `dead_p && !MIR_call_code_p (...) && insn->code != ...`"""
+    m = re.search(r'if \(dead_p && ((?:[^;{}])*?)\) \{', re.sub(r'\s+', ' ', src))
+    if not m:
+        return None
+    kept = set()
+    if '!MIR_call_code_p (insn->code)' in m.group(1):
+        kept.add('CALL')
+    kept |= set(re.findall(r'insn->code != MIR_(\w+)', m.group(1)))
+    return kept
+
+
 def switch_after(body, marker_re):
     """the text of the first `switch (...) { ... }` whose head matches marker_re"""
     m = re.search(r'switch \(%s\) \{' % marker_re, body)
@@ -364,6 +417,15 @@ def translate(repo):
     L.append('Definition gen_call_fp_end_rule : bool := %s.' % ('true' if rules[0] else 'false'))
     L.append('Definition gen_call_fp_blk_rule : bool := %s.' % ('true' if rules[1] else 'false'))
     L.append('Definition gen_call_fp_scalar_rule : bool := %s.' % ('true' if rules[2] else 'false'))
+    # dead-code elimination: side-effecting insns with an output operand that are never deleted
+    for tag, kept, what in (('ssa', ssa_never_dead(func_body(gen, 'ssa_dead_insn_p')), 'the never-dead insn list of ssa_dead_insn_p'),
+                            ('postra', post_ra_never_dead(func_body(gen, 'dead_code_elimination')), 'the never-dead insn list of dead_code_elimination')):
+        if kept is None:
+            fallback(what)
+            kept = set(DCE_CODES)
+        L.append('(* %s: %s *)' % (what, ' '.join(sorted(kept))))
+        for c in DCE_CODES:
+            L.append('Definition gen_%s_keeps_%s : bool := %s.' % (tag, c.lower(), 'true' if c in kept else 'false'))
     pe = func_body(gen, 'target_make_prolog_epilog')
     want = ['leaf_p', '!alloca_p', '!block_arg_func_p', 'saved_hard_regs_size == 0', '!vararg_p', 'stack_slots_num == 0']
     ok = None
